@@ -6,6 +6,8 @@ package c20
 
 import (
 	"context"
+	"net/http"
+	"net/url"
 	"time"
 
 	"go.opentelemetry.io/otel/exporters/otlp/otlplog/otlploggrpc"
@@ -20,6 +22,7 @@ import (
 	"go.opentelemetry.io/otel/sdk/metric/metricdata"
 	"go.opentelemetry.io/otel/sdk/resource"
 	"go.opentelemetry.io/otel/sdk/trace/tracetest"
+	"google.golang.org/grpc"
 )
 
 var exporterNames = []string{"otlptracegrpc", "otlptracehttp", "otlpmetricgrpc", "otlpmetrichttp", "otlploggrpc", "otlploghttp"}
@@ -58,7 +61,11 @@ type optSet struct {
 	compression *int    // HTTP exporters: Compression(n); 0 none, 1 gzip
 	compressor  *string // gRPC exporters: WithCompressor(name)
 	timeout     *time.Duration
+	grpcConn    *grpc.ClientConn // gRPC exporters: WithGRPCConn
+	proxy       bool             // HTTP exporters: WithProxy(no proxy)
 }
+
+func directProxy(*http.Request) (*url.URL, error) { return nil, nil }
 
 // client is a constructed exporter.
 type client struct {
@@ -85,6 +92,9 @@ func build(exp string, o optSet) (*client, error) {
 		}
 		if o.timeout != nil {
 			opts = append(opts, otlptracegrpc.WithTimeout(*o.timeout))
+		}
+		if o.grpcConn != nil {
+			opts = append(opts, otlptracegrpc.WithGRPCConn(o.grpcConn))
 		}
 		e, err := otlptracegrpc.New(ctx, opts...)
 		if err != nil {
@@ -116,6 +126,9 @@ func build(exp string, o optSet) (*client, error) {
 		if o.timeout != nil {
 			opts = append(opts, otlptracehttp.WithTimeout(*o.timeout))
 		}
+		if o.proxy {
+			opts = append(opts, otlptracehttp.WithProxy(directProxy))
+		}
 		e, err := otlptracehttp.New(ctx, opts...)
 		if err != nil {
 			return nil, err
@@ -142,6 +155,9 @@ func build(exp string, o optSet) (*client, error) {
 		}
 		if o.timeout != nil {
 			opts = append(opts, otlpmetricgrpc.WithTimeout(*o.timeout))
+		}
+		if o.grpcConn != nil {
+			opts = append(opts, otlpmetricgrpc.WithGRPCConn(o.grpcConn))
 		}
 		e, err := otlpmetricgrpc.New(ctx, opts...)
 		if err != nil {
@@ -171,6 +187,9 @@ func build(exp string, o optSet) (*client, error) {
 		if o.timeout != nil {
 			opts = append(opts, otlpmetrichttp.WithTimeout(*o.timeout))
 		}
+		if o.proxy {
+			opts = append(opts, otlpmetrichttp.WithProxy(directProxy))
+		}
 		e, err := otlpmetrichttp.New(ctx, opts...)
 		if err != nil {
 			return nil, err
@@ -195,6 +214,9 @@ func build(exp string, o optSet) (*client, error) {
 		}
 		if o.timeout != nil {
 			opts = append(opts, otlploggrpc.WithTimeout(*o.timeout))
+		}
+		if o.grpcConn != nil {
+			opts = append(opts, otlploggrpc.WithGRPCConn(o.grpcConn))
 		}
 		e, err := otlploggrpc.New(ctx, opts...)
 		if err != nil {
@@ -223,6 +245,9 @@ func build(exp string, o optSet) (*client, error) {
 		}
 		if o.timeout != nil {
 			opts = append(opts, otlploghttp.WithTimeout(*o.timeout))
+		}
+		if o.proxy {
+			opts = append(opts, otlploghttp.WithProxy(directProxy))
 		}
 		e, err := otlploghttp.New(ctx, opts...)
 		if err != nil {
